@@ -57,12 +57,18 @@ package lnd
 
 //@ interface walletrpc.WalletKitClient.PublishTransaction
 //@ sets ghost.publishedBytes = in.TxHex
+// (a failed publish has broadcast nothing: environment, ASSUMED)
+//@ sets ghost.bcast = ite(result1 == nil, old(ghost.bcast) + 1, old(ghost.bcast))
 //@ assigns nothing
 
 
 //@ func (*Client).CreateOpeningTransaction
-//@ property C08
+//@ property C08 C07 C15
 //@ requires l != nil && swapParams != nil
+// C07 / C15: what swap.Wallet.CreateOpeningTransaction's environment contract assumes
+// is proved for this implementation: publishing is the last step that can fail
+//@ ensures @C07,C15 failure-is-no-broadcast: result5 != nil ==> ghost.bcast == old(ghost.bcast)
+//@ ensures @C07,C15 success-is-one-broadcast: result5 == nil ==> ghost.bcast == old(ghost.bcast) + 1
 //@ ensures @C08 announced-hex-is-published: result5 == nil ==> ghost.publishedBytes == hex.DecodeString(result0)
 //@ ensures @C08 vout-verified: result5 == nil ==> ghost.voutOK
 //@ ensures @C08 vout-of-announced-tx: result5 == nil ==> ghost.voutCheckedHex == result0
